@@ -57,7 +57,7 @@ _STATS = re.compile(r'(\d+) states generated, (\d+) distinct states found, (\d+)
 
 
 def run_tlc(module, cfg_text, runcfg=None, workers=8, consumer=None, timeout=3600,
-            simulate=None, extra_files=None, coverage=False, env_extra=None, depth_first=False):
+            simulate=None, extra_files=None, coverage=False, env_extra=None, depth_first=False, extra_args=None):
     """Run TLC on spec/<module>.tla.
 
     consumer: callable(file_object) reading the streamed -dump output (None: no dump).
@@ -84,6 +84,8 @@ def run_tlc(module, cfg_text, runcfg=None, workers=8, consumer=None, timeout=360
             cmd += ['-coverage', '1']
         if simulate:
             cmd += ['-simulate', simulate]
+        if extra_args:
+            cmd += list(extra_args)
         th = None
         err = []
         if consumer is not None:
